@@ -2,6 +2,8 @@
 
 mod errtree;
 mod c05;
+mod c06;
+mod declgen;
 mod c11;
 mod c12;
 mod c13;
@@ -23,6 +25,7 @@ fn main() {
         "C04" => errtree::run(&args, errtree::Mode::Algebra),
         "C03" => errtree::run(&args, errtree::Mode::Spans),
         "C05" => c05::run(&args),
+        "C06" => c06::run(&args),
         "C11" => c11::run(&args),
         "C12" => c12::run(&args),
         "C13" => c13::run(&args),
